@@ -78,8 +78,10 @@ class Scratch:
 
 # ------------------------------------------------------------------------------------------------ go driver
 
-def build_driver(pkg="./cmd/drv", out="drv"):
-    """(re)build the Go driver against /repo's current working tree, hooks enabled (-tags verif)."""
+def build_driver(area):
+    """(re)build the Go driver of one area (harness/cmd/<area>) against /repo's current working tree,
+    hooks enabled (-tags verif). Returns the path of the binary."""
+    pkg, out = "./cmd/" + area, "drv_" + area
     os.makedirs(BUILD, exist_ok=True)
     gosum = os.path.join(HARNESS, "go.sum")
     try:
